@@ -17,7 +17,8 @@
 (* "MODEL:<action>:<field>" (drift).  While the model is in sync it also      *)
 (* records which deviations were exercised (the step result differs when that *)
 (* deviation alone is switched off).  Two lines per trace:                    *)
-(*    <<"V", id, verdict, pos>>   verdict = ACCEPT | PROP:.. | MODEL:..        *)
+(*    <<"P", id, clause, step, model in sync, exercised>>  once per false clause *)
+(*    <<"V", id, verdict, pos>>   verdict = ACCEPT | PROP | MODEL:..            *)
 (*    <<"M", id, first model mismatch or "none", pos, exercised deviations>>  *)
 EXTENDS Integers, Sequences, FiniteSets, TLC, Json, IOUtils, Bags, PaxosContract
 
@@ -28,7 +29,7 @@ VARIABLES ti, l,
           mnode, mmsgs, mfuts,        \* model state stepped alongside
           ms,                         \* [sync, mism, mpos, used]: model status
           oDec, oDval, oFuts, prop,   \* observed state
-          bad                         \* contract verdict ("" = none)
+          bad                         \* contract clauses found false so far (each reported once)
 vars == <<ti, l, mnode, mmsgs, mfuts, ms, oDec, oDval, oFuts, prop, bad>>
 
 Tr == Traces[IF ti <= NT THEN ti ELSE NT]
@@ -69,9 +70,17 @@ Init ==
     /\ mnode = [n \in 1..Tr.n |-> C!InitNode]
     /\ mmsgs = EmptyBag /\ mfuts = <<>> /\ ms = MS0
     /\ oDec = [n \in 1..Tr.n |-> FALSE] /\ oDval = [n \in 1..Tr.n |-> 0]
-    /\ oFuts = <<>> /\ prop = {} /\ bad = ""
+    /\ oFuts = <<>> /\ prop = {} /\ bad = {}
 
 \* ---- contract on the observed execution -------------------------------------
+\* exercised deviations as a bit mask over the positions in Tr.dev (TLC wraps long printed values)
+RECURSIVE MaskOf(_, _)
+MaskOf(u, i) == IF i > Len(Tr.dev) THEN 0 ELSE (IF Tr.dev[i] \in u THEN 2 ^ (i - 1) ELSE 0) + MaskOf(u, i + 1)
+
+\* every clause found false for the first time is reported with the model status AFTER this step:
+\*   <<"P", id, clause, step, model still in sync, exercised deviations>>
+Report(new, pos, st) == \A c \in new : PrintT(<<"P", Tr.id, c, pos, st.sync, MaskOf(st.used, 1)>>)
+
 ObsStep(s) ==
     LET n == s.node
         d2 == IF s.a = "drop" THEN oDec ELSE [oDec EXCEPT ![n] = s.post[9]]
@@ -79,14 +88,15 @@ ObsStep(s) ==
         f2 == [k \in 1..Len(s.futs) |-> [owner |-> 0, val |-> s.futs[k]]]
         p2 == IF s.a = "propose" THEN prop \cup {s.v} ELSE prop
         futStable == \A k \in 1..Len(oFuts) : oFuts[k].val # Pending => (k <= Len(f2) /\ f2[k].val = oFuts[k].val)
+        falseNow == (IF ~Stability(oDec, oDval, d2, v2) THEN {"stability"} ELSE {})
+                    \cup (IF ~Agreement(d2, v2) THEN {"agreement"} ELSE {})
+                    \cup (IF ~Validity(d2, v2, p2) THEN {"validity"} ELSE {})
+                    \cup (IF ~FutureTruth(d2, v2, f2) THEN {"future_truth"} ELSE {})
+                    \cup (IF ~FutureValid(f2, p2) THEN {"future_valid"} ELSE {})
+                    \cup (IF ~futStable THEN {"future_changed"} ELSE {})
     IN /\ oDec' = d2 /\ oDval' = v2 /\ oFuts' = f2 /\ prop' = p2
-       /\ bad' = IF ~Stability(oDec, oDval, d2, v2) THEN "PROP:stability"
-                 ELSE IF ~Agreement(d2, v2) THEN "PROP:agreement"
-                 ELSE IF ~Validity(d2, v2, p2) THEN "PROP:validity"
-                 ELSE IF ~FutureTruth(d2, v2, f2) THEN "PROP:future_truth"
-                 ELSE IF ~FutureValid(f2, p2) THEN "PROP:future_valid"
-                 ELSE IF ~futStable THEN "PROP:future_changed"
-                 ELSE ""
+       /\ bad' = bad \cup falseNow
+       /\ Report(falseNow \ bad, l, ms')
 
 \* ---- the implementation model stepped alongside -----------------------------
 \* (values are bound with \E x \in {e} so that TLC evaluates each of them exactly once)
@@ -124,13 +134,9 @@ ModelStep(s) ==
                         { d \in TDev : CX(d)!Handle(mnode[n], m) # r })
       [] OTHER -> Fail("MODEL:unknown_action")
 
-\* exercised deviations as a bit mask over the positions in Tr.dev (TLC wraps long printed values)
-RECURSIVE UsedMask(_)
-UsedMask(i) == IF i > Len(Tr.dev) THEN 0 ELSE (IF Tr.dev[i] \in ms.used THEN 2 ^ (i - 1) ELSE 0) + UsedMask(i + 1)
-
 Finish(verdict, pos) ==
     /\ PrintT(<<"V", Tr.id, verdict, pos>>)
-    /\ PrintT(<<"M", Tr.id, ms.mism, ms.mpos, UsedMask(1)>>)
+    /\ PrintT(<<"M", Tr.id, ms.mism, ms.mpos, MaskOf(ms.used, 1)>>)
     /\ ti' = ti + 1
     /\ IF ti < NT
        THEN LET T2 == Traces[ti + 1] IN
@@ -138,20 +144,21 @@ Finish(verdict, pos) ==
             /\ mnode' = [n \in 1..T2.n |-> C!InitNode]
             /\ mmsgs' = EmptyBag /\ mfuts' = <<>> /\ ms' = MS0
             /\ oDec' = [n \in 1..T2.n |-> FALSE] /\ oDval' = [n \in 1..T2.n |-> 0]
-            /\ oFuts' = <<>> /\ prop' = {} /\ bad' = ""
+            /\ oFuts' = <<>> /\ prop' = {} /\ bad' = {}
        ELSE UNCHANGED <<l, mnode, mmsgs, mfuts, ms, oDec, oDval, oFuts, prop, bad>>
 
+ProgressFails == Tr.mode = "progress" /\ ~ProgressSingle(oDec, oDval, oFuts, Tr.pval)
 EndVerdict ==
-    IF Tr.mode = "progress" /\ ~ProgressSingle(oDec, oDval, oFuts, Tr.pval) THEN "PROP:progress_single_proposer"
+    IF bad # {} \/ ProgressFails THEN "PROP"
     ELSE IF ms.mism # "none" THEN ms.mism
     ELSE "ACCEPT"
 
 Next ==
     /\ ti <= NT
-    /\ IF bad # "" THEN Finish(bad, l - 1)
-       ELSE IF l > Len(Tr.steps)
-            THEN Finish(EndVerdict, IF ms.mism # "none" /\ EndVerdict = ms.mism THEN ms.mpos ELSE l - 1)
-       ELSE \E s \in {Tr.steps[l]} : ObsStep(s) /\ ModelStep(s) /\ l' = l + 1 /\ ti' = ti
+    /\ IF l > Len(Tr.steps)
+       THEN /\ (ProgressFails => Report({"progress_single_proposer"}, l - 1, ms))
+            /\ Finish(EndVerdict, IF ms.mism # "none" THEN ms.mpos ELSE l - 1)
+       ELSE \E s \in {Tr.steps[l]} : ModelStep(s) /\ ObsStep(s) /\ l' = l + 1 /\ ti' = ti
 
 Spec == Init /\ [][Next]_vars
 =============================================================================
